@@ -116,12 +116,8 @@ def parse_behaviour(text):
         j = i
         while j + 1 < len(steps) and steps[j + 1][0] == "tau":
             j += 1
-        complete = j + 1 < len(steps) or True
-        exp = steps[j][1]
-        cmds.append((last, exp if complete else ""))
-    # the result of the last command is only known if the behaviour went on to quiescence
-    if cmds and steps and steps[-1][0] == "tau" and cmds[-1][1] == "":
-        cmds[-1] = (cmds[-1][0], "")
+        # the result is the value of "out" once the code is quiescent again ("" if the behaviour was cut before)
+        cmds.append((last, steps[j][1]))
     return cmds
 
 
